@@ -137,7 +137,7 @@ func main() {
 		}
 		return os.Open(f)
 	})
-	rewritten, sites, ranges, iters := 0, 0, 0, 0
+	rewritten, sites, ranges, iters, atomics := 0, 0, 0, 0, 0
 	for _, p := range pkgs {
 		var files []*ast.File
 		var names []string
@@ -169,6 +169,7 @@ func main() {
 			sites += st.sites
 			ranges += st.ranges
 			iters += st.iters
+			atomics += st.atomics
 		}
 	}
 	// 4. go.mod: require the shim; generics in the inserted helpers need go >= 1.20 (interface keys satisfying comparable)
@@ -191,12 +192,12 @@ func main() {
 	if err := os.WriteFile(gm, data, 0o644); err != nil {
 		fail("%v", err)
 	}
-	fmt.Printf("simrewrite: %d files rewritten, %d yield sites, %d map ranges, %d MapRange calls\n", rewritten, sites, ranges, iters)
+	fmt.Printf("simrewrite: %d files rewritten, %d yield sites, %d map ranges, %d MapRange calls, %d yields at sync/atomic operations\n", rewritten, sites, ranges, iters, atomics)
 }
 
 type stats struct {
-	changed              bool
-	sites, ranges, iters int
+	changed                       bool
+	sites, ranges, iters, atomics int
 }
 
 func rewrite(fset *token.FileSet, f *ast.File, info *types.Info, rel string, data []byte, yields, maps bool) ([]byte, stats) {
@@ -282,6 +283,117 @@ func rewrite(fset *token.FileSet, f *ast.File, info *types.Info, rel string, dat
 			}
 			return true
 		})
+	}
+	// scheduling points around sync/atomic operations (every file): a statement that contains a call of a
+	// sync/atomic function or of a method of a sync/atomic type gets an unconditional yield in front of it
+	// (never inside the body of a range statement, never in files that already get statement-level yields)
+	if !yields {
+		atomicNames := map[string]bool{}
+		for _, im := range f.Imports {
+			if im.Path.Value == `"sync/atomic"` {
+				n := "atomic"
+				if im.Name != nil {
+					n = im.Name.Name
+				}
+				atomicNames[n] = true
+			}
+		}
+		isAtomicCall := func(n ast.Node) bool {
+			found := false
+			ast.Inspect(n, func(x ast.Node) bool {
+				if _, isFn := x.(*ast.FuncLit); isFn {
+					return false
+				}
+				c, ok := x.(*ast.CallExpr)
+				if !ok {
+					return true
+				}
+				sel, ok := c.Fun.(*ast.SelectorExpr)
+				if !ok {
+					return true
+				}
+				if id, ok := sel.X.(*ast.Ident); ok && atomicNames[id.Name] {
+					found = true
+				}
+				if tv, ok := info.Types[sel.X]; ok && tv.Type != nil {
+					t := tv.Type
+					if pt, ok := t.(*types.Pointer); ok {
+						t = pt.Elem()
+					}
+					if nt, ok := t.(*types.Named); ok && nt.Obj().Pkg() != nil && nt.Obj().Pkg().Path() == "sync/atomic" {
+						found = true
+					}
+				}
+				return true
+			})
+			return found
+		}
+		var aList func(list []ast.Stmt)
+		var aStmt func(s ast.Stmt)
+		aList = func(list []ast.Stmt) {
+			for _, s := range list {
+				switch x := s.(type) {
+				case *ast.CaseClause, *ast.CommClause:
+				case *ast.ExprStmt, *ast.AssignStmt, *ast.IncDecStmt, *ast.ReturnStmt, *ast.DeclStmt, *ast.DeferStmt:
+					if isAtomicCall(x) {
+						st.atomics++
+						needShim = true
+						eds = append(eds, edit{off: off(s.Pos()), text: "simshim.Yield(); "})
+					}
+				case *ast.IfStmt:
+					if (x.Init != nil && isAtomicCall(x.Init)) || isAtomicCall(x.Cond) {
+						st.atomics++
+						needShim = true
+						eds = append(eds, edit{off: off(s.Pos()), text: "simshim.Yield(); "})
+					}
+				case *ast.ForStmt:
+					if x.Cond != nil && isAtomicCall(x.Cond) {
+						st.atomics++
+						needShim = true
+						eds = append(eds, edit{off: off(s.Pos()), text: "simshim.Yield(); "})
+					}
+				case *ast.SwitchStmt:
+					if x.Tag != nil && isAtomicCall(x.Tag) {
+						st.atomics++
+						needShim = true
+						eds = append(eds, edit{off: off(s.Pos()), text: "simshim.Yield(); "})
+					}
+				}
+				aStmt(s)
+			}
+		}
+		aStmt = func(s ast.Stmt) {
+			switch x := s.(type) {
+			case *ast.BlockStmt:
+				aList(x.List)
+			case *ast.IfStmt:
+				aList(x.Body.List)
+				if x.Else != nil {
+					aStmt(x.Else)
+				}
+			case *ast.ForStmt:
+				aList(x.Body.List)
+			case *ast.RangeStmt:
+				// never inside
+			case *ast.SwitchStmt:
+				aList(x.Body.List)
+			case *ast.TypeSwitchStmt:
+				aList(x.Body.List)
+			case *ast.SelectStmt:
+				aList(x.Body.List)
+			case *ast.CaseClause:
+				aList(x.Body)
+			case *ast.CommClause:
+				aList(x.Body)
+			case *ast.LabeledStmt:
+				aStmt(x.Stmt)
+			}
+		}
+		for _, d := range f.Decls {
+			if fd, ok := d.(*ast.FuncDecl); ok && fd.Body != nil {
+				aList(fd.Body.List)
+			}
+		}
 	}
 	if yields {
 		var walkList func(list []ast.Stmt)
